@@ -115,7 +115,7 @@ SUITES["sched"] = dict(
 
 PROPS = {
     "C09": dict(
-        props_file="Props/C09.v",
+        props_file="Props/C09.v", gen=["LimiterGen"],
         suites=[dict(suite="limiter", corr=["diff"], monitors=["mon_window", "mon_burst", "mon_first_burst"],
                      classifiers={"cleanup-regrant": "cls_cleanup_regrant"}, nontrivial="nt_c09"),
                 dict(suite="lbseq", corr=["diff_begin"], monitors=["mon_c09_gate"], classifiers={}, nontrivial="nt_c09")],
@@ -138,7 +138,7 @@ PROPS = {
 }
 
 PROPS["C07"] = dict(
-    props_file="Props/C07.v",
+    props_file="Props/C07.v", gen=["BreakerGen"],
     suites=[dict(suite="breaker", corr=["diff"], monitors=["mon_block", "mon_trials", "mon_trip", "mon_close", "mon_reopen"],
                  classifiers={}, nontrivial="nt_c07"),
             dict(suite="lbseq", corr=["diff_begin"], monitors=["mon_c07_lb"], classifiers={}, nontrivial="nt_c07"),
@@ -160,7 +160,7 @@ PROPS["C07"] = dict(
     assumptions=["virtual time is non-decreasing", "uint32 counter overflow out of scope", "sync.RWMutex gives mutual exclusion"],
 )
 PROPS["C08"] = dict(
-    props_file="Props/C08.v",
+    props_file="Props/C08.v", gen=["BreakerGen"],
     suites=[dict(suite="breaker", corr=["diff"], monitors=["mon_recover"],
                  classifiers={"lockout-max-lt-success": "cls_lockout"}, nontrivial="nt_c08"),
             # notifications never block request processing: decided on the balancer (its callback is the one installed in production);
@@ -228,7 +228,7 @@ _LB_TRUST = ["model Model/LB.v (+Strategy/Limiter/Breaker/ClientIP) of internal/
                   "harness: scripted in-memory RoundTrippers per backend, testing/synctest virtual clock, request context carrying http.ServerContextKey"]
 
 PROPS["C02"] = dict(
-    props_file="Props/C02.v",
+    props_file="Props/C02.v", gen=["HealthGen"],
     suites=[dict(suite="lbseq", corr=["diff_begin"], monitors=["mon_c02_disp", "mon_c02_503"],
                  classifiers={}, nontrivial="nt_c02"),
             # ejection by the active checker: no traffic inside the window whatever later probes say
@@ -250,7 +250,7 @@ PROPS["C02"] = dict(
     assumptions=["virtual time non-decreasing", "pool below 2^31 backends, in-flight counts below 2^31-1"],
 )
 PROPS["C04"] = dict(
-    props_file="Props/C04.v",
+    props_file="Props/C04.v", gen=["HealthGen"],
     suites=[dict(suite="lbseq", corr=["diff_begin", "diff_admin"], monitors=["mon_c04_list", "mon_c04_only_after", "mon_c04_mirror", "mon_c02_disp", "mon_c02_503"],
                  classifiers={}, nontrivial="nt_c04"),
             dict(suite="probe", corr=["diff"], monitors=["mon_c04_probe_window"], classifiers={}, nontrivial="nt_c04"),
